@@ -57,7 +57,11 @@ class C10(Cfg):
                   "two well-formed rooms holding the same entries in ANY insertion order decide the same whenever equal (key,date) means equal payload; "
                   "every construction path of the model (validate_room_mutation, load_json after LOAD_QUERY, RoomNode::parse after RoomNode::read, "
                   "prepare_room_with_history) installs a room that agrees with the stored rows, hence all paths give the same decisions; "
-                  "with ascending replay (Defects.none) reload of any stored definition succeeds. "
+                  "with ascending replay (Defects.none) reload of any stored definition succeeds; "
+                  "SUCCESS of the import by an instance that never saw the room (C10_import_succeeds): for every history of accepted local room mutations whose dates move forward "
+                  "(any callers, any number of rooms), with harmless ties, the export is accepted by any live instance that does not hold the room and means the same there — for the code "
+                  "once the group-creation rule is repaired (switch groupCreationUnchecked; the caller of an accepted mutation of an existing room is admin before and after it, a creator is admin "
+                  "of what it creates or creates an empty room; past stability of isAdmin); the two guards are exact (witnesses C10_breaks_authorDisabledSameDate, C10_breaks_sameDateEntries). "
                   "Each deviation found is a switch with a decide-checked witness: newest-first replay (#4), right normalisation skipped on reload (#5), rooms "
                   "without group/admin dropped on reload — all three FIXED in /repo since (f7a29ff, be6bedc, ee57a96; switches off in Defects.asImplemented, replays "
                   "kept as regression cases) — and, still open: the new-group user rule (#33), equal-date conflicting entries, a group created by a non-admin, "
